@@ -424,51 +424,40 @@ theorem tracks_const (t : List Seg) : Tracks (t.map (fun _ => (0 : Int))) t (fun
   refine ⟨by simp, fun i h1 h2 => ?_⟩
   simp
 
-/-! ### `enumerate_changes` on integer levels -/
+/-! ### `enumerate_changes` (repaired: the running count of changes) on arbitrary rational levels -/
 
-def iabs (z : Int) : Int := if z < 0 then -z else z
-
-def cum (g : Seg → Int) (n p : Int) : List Seg → List Int
+def cumQ (q : Seg → Rat) (n : Int) (p : Rat) : List Seg → List Int
   | [] => []
-  | x :: xs => (n + iabs (g x - p)) :: cum g (n + iabs (g x - p)) (g x) xs
+  | x :: xs => (n + (if p = q x then 0 else 1)) :: cumQ q (n + (if p = q x then 0 else 1)) (q x) xs
 
-def intChanges (g : Seg → Int) : List Seg → List Int
+def ratChanges (q : Seg → Rat) : List Seg → List Int
   | [] => []
-  | x :: xs => 0 :: cum g 0 (g x) xs
+  | x :: xs => 0 :: cumQ q 0 (q x) xs
 
-theorem ratAbs_int (a b : Int) : ratAbs ((a : Rat) - (b : Rat)) = ((iabs (a - b) : Int) : Rat) := by
-  unfold ratAbs iabs
-  rw [← Rat.intCast_sub]
-  by_cases h : a - b < 0
-  · rw [if_pos h, if_pos (Rat.intCast_neg_iff.mpr h), Rat.intCast_neg]
-  · rw [if_neg h, if_neg (fun h' => h (Rat.intCast_neg_iff.mp h'))]
-
-theorem enumChangesGo_int (g : Seg → Int) (n p : Int) (xs : List Seg) :
-    enumChangesGo (n : Rat) (some (p : Rat)) (xs.map (fun r => some ((g r : Int) : Rat))) = cum g n p xs := by
+theorem enumChangesGo_rat (q : Seg → Rat) (n : Int) (p : Rat) (xs : List Seg) :
+    enumChangesGo n (some p) (xs.map (fun r => some (q r))) = cumQ q n p xs := by
   induction xs generalizing n p with
   | nil => rfl
   | cons x xs ih =>
-    simp only [List.map_cons, enumChangesGo, cum]
-    rw [ratAbs_int, ← Rat.intCast_add, Rat.floor_intCast, ih]
+    simp only [List.map_cons, enumChangesGo, cumQ]
+    rw [ih]
 
-theorem enumChanges_int (g : Seg → Int) (t : List Seg) :
-    enumChanges (t.map (fun r => some ((g r : Int) : Rat))) = intChanges g t := by
+theorem enumChanges_rat (q : Seg → Rat) (t : List Seg) :
+    enumChanges (t.map (fun r => some (q r))) = ratChanges q t := by
   cases t with
   | nil => rfl
   | cons x xs =>
-    simp only [List.map_cons, enumChanges, intChanges]
-    have := enumChangesGo_int g 0 (g x) xs
-    rw [Rat.intCast_zero] at this
-    rw [this]
+    simp only [List.map_cons, enumChanges, ratChanges]
+    rw [enumChangesGo_rat q 0 (q x) xs]
 
-theorem cum_length (g : Seg → Int) (n p : Int) (xs : List Seg) : (cum g n p xs).length = xs.length := by
+theorem cumQ_length (q : Seg → Rat) (n : Int) (p : Rat) (xs : List Seg) : (cumQ q n p xs).length = xs.length := by
   induction xs generalizing n p with
   | nil => rfl
-  | cons x xs ih => simp [cum, ih]
+  | cons x xs ih => simp [cumQ, ih]
 
-theorem cum_succ (g : Seg → Int) (n p : Int) (xs : List Seg) :
-    ∀ i (h1 : i + 1 < (cum g n p xs).length) (h2 : i + 1 < xs.length),
-      (cum g n p xs)[i+1] = (cum g n p xs)[i] + iabs (g xs[i+1] - g xs[i]) := by
+theorem cumQ_succ (q : Seg → Rat) (n : Int) (p : Rat) (xs : List Seg) :
+    ∀ i (h1 : i + 1 < (cumQ q n p xs).length) (h2 : i + 1 < xs.length),
+      (cumQ q n p xs)[i+1] = (cumQ q n p xs)[i] + (if q xs[i] = q xs[i+1] then 0 else 1) := by
   induction xs generalizing n p with
   | nil => intro i h1 h2; simp at h2
   | cons x xs ih =>
@@ -477,19 +466,19 @@ theorem cum_succ (g : Seg → Int) (n p : Int) (xs : List Seg) :
     | zero =>
       cases xs with
       | nil => simp at h2
-      | cons y ys => simp [cum]
+      | cons y ys => simp [cumQ]
     | succ i =>
-      simp only [cum, List.getElem_cons_succ]
-      exact ih _ _ i (by simpa [cum] using h1) (by simpa using h2)
+      simp only [cumQ, List.getElem_cons_succ]
+      exact ih _ _ i (by simpa [cumQ] using h1) (by simpa using h2)
 
-theorem intChanges_length (g : Seg → Int) (t : List Seg) : (intChanges g t).length = t.length := by
+theorem ratChanges_length (q : Seg → Rat) (t : List Seg) : (ratChanges q t).length = t.length := by
   cases t with
   | nil => rfl
-  | cons x xs => simp [intChanges, cum_length]
+  | cons x xs => simp [ratChanges, cumQ_length]
 
-theorem intChanges_succ (g : Seg → Int) (t : List Seg) :
-    ∀ i (h1 : i + 1 < (intChanges g t).length) (h2 : i + 1 < t.length),
-      (intChanges g t)[i+1] = (intChanges g t)[i] + iabs (g t[i+1] - g t[i]) := by
+theorem ratChanges_succ (q : Seg → Rat) (t : List Seg) :
+    ∀ i (h1 : i + 1 < (ratChanges q t).length) (h2 : i + 1 < t.length),
+      (ratChanges q t)[i+1] = (ratChanges q t)[i] + (if q t[i] = q t[i+1] then 0 else 1) := by
   cases t with
   | nil => intro i h1 h2; simp at h2
   | cons x xs =>
@@ -498,17 +487,18 @@ theorem intChanges_succ (g : Seg → Int) (t : List Seg) :
     | zero =>
       cases xs with
       | nil => simp at h2
-      | cons y ys => simp [intChanges, cum]
+      | cons y ys => simp [ratChanges, cumQ]
     | succ i =>
-      simp only [intChanges, List.getElem_cons_succ]
-      exact cum_succ g _ _ xs i (by simpa [intChanges] using h1) (by simpa using h2)
+      simp only [ratChanges, List.getElem_cons_succ]
+      exact cumQ_succ q _ _ xs i (by simpa [ratChanges] using h1) (by simpa using h2)
 
-theorem tracks_intChanges (g : Seg → Int) (t : List Seg) :
-    Tracks (intChanges g t) t (fun a b => g a = g b) := by
-  refine ⟨intChanges_length g t, fun i h1 h2 => ?_⟩
-  rw [intChanges_succ g t i h1 h2]
-  unfold iabs
-  split <;> constructor <;> first | omega | (constructor <;> intro h <;> omega)
+/-- the key column counts the level changes: non-decreasing, and constant exactly between equal levels --
+    for levels of ANY size (no integrality needed after the repair) -/
+theorem tracks_ratChanges (q : Seg → Rat) (t : List Seg) :
+    Tracks (ratChanges q t) t (fun a b => q a = q b) := by
+  refine ⟨ratChanges_length q t, fun i h1 h2 => ?_⟩
+  rw [ratChanges_succ q t i h1 h2]
+  split <;> constructor <;> first | omega | (constructor <;> intro h <;> first | omega | assumption | contradiction)
 
 /-! ### the chromosome ordinal -/
 
@@ -607,72 +597,76 @@ theorem keys_spec (t : List Seg) (ord : Seg → Int) (C A B : List Int) (PC PO P
     have b2 := hB.mono j (i+1) (by omega) (by omega)
     refine ⟨by omega, by omega, by omega⟩
 
-theorem natOrMissing_decode (q : Option Rat) (hq : NatOrMissing q) :
-    ∃ z : Int, -1 ≤ z ∧ q = (if z = -1 then none else some (z : Rat)) := by
+theorem natOrMissing_ne (q : Option Rat) (hq : NatOrMissing q) : q ≠ some (-1) := by
   rcases hq with rfl | ⟨n, rfl⟩
-  · exact ⟨-1, by omega, by simp⟩
-  · refine ⟨(n : Int), by omega, ?_⟩
-    rw [if_neg (by omega), Rat.intCast_natCast]
+  · simp
+  · intro h
+    have h' : ((n : Nat) : Rat) = -1 := Option.some.inj h
+    have h0 : (0 : Rat) ≤ ((n : Nat) : Rat) := by
+      rw [← Rat.intCast_natCast]; exact Rat.intCast_nonneg.mpr (Int.natCast_nonneg n)
+    rw [h'] at h0
+    exact absurd h0 (by decide)
 
-theorem natOrMissing_repr (q : Option Rat) (hq : NatOrMissing q) :
-    q.getD (-1) = (((q.getD (-1)).floor : Int) : Rat) := by
-  obtain ⟨z, hz, rfl⟩ := natOrMissing_decode q hq
-  by_cases h : z = -1
-  · subst h
-    have : (-1 : Rat) = ((-1 : Int) : Rat) := rfl
-    simp only [if_true, Option.getD_none]
-    rw [this, Rat.floor_intCast]
-  · simp only [if_neg h, Option.getD_some, Rat.floor_intCast]
-
-theorem natOrMissing_inj (q q' : Option Rat) (hq : NatOrMissing q) (hq' : NatOrMissing q') :
-    (q.getD (-1)).floor = (q'.getD (-1)).floor ↔ q = q' := by
+/-- `fillna(-1)` keeps two allele-specific copy numbers apart exactly when they differ, as long as −1 itself
+    is not a value -/
+theorem getD_neg_one_inj (q q' : Option Rat) (hq : q ≠ some (-1)) (hq' : q' ≠ some (-1)) :
+    q.getD (-1) = q'.getD (-1) ↔ q = q' := by
   constructor
   · intro h
-    obtain ⟨z, hz, rfl⟩ := natOrMissing_decode q hq
-    obtain ⟨z', hz', rfl⟩ := natOrMissing_decode q' hq'
-    have e : ∀ w : Int, ((if w = -1 then none else some (w : Rat) : Option Rat).getD (-1)).floor = w := by
-      intro w
-      by_cases hw : w = -1
-      · subst hw
-        have : (-1 : Rat) = ((-1 : Int) : Rat) := rfl
-        simp only [if_true, Option.getD_none]
-        rw [this, Rat.floor_intCast]
-      · simp only [if_neg hw, Option.getD_some, Rat.floor_intCast]
-    rw [e z, e z'] at h
-    rw [h]
+    cases q with
+    | none =>
+      cases q' with
+      | none => rfl
+      | some b => simp only [Option.getD_none, Option.getD_some] at h; exact absurd (h ▸ rfl) hq'
+    | some a =>
+      cases q' with
+      | none => simp only [Option.getD_none, Option.getD_some] at h; exact absurd (h ▸ rfl) hq
+      | some b => simp only [Option.getD_some] at h; rw [h]
   · intro h; rw [h]
 
 /-! ### the group keys of the code select exactly the maximal runs -/
 
-/-- MAIN: on a chromosome-contiguous table with integer levels, `squash_by_groups` (cumulative
-    |diff| of the level + chromosome ordinal, plus the allele-specific keys) yields exactly one
-    squashed row per maximal run of consecutive same-chromosome, same-level segments -/
-theorem squashByGroups_eq_runs (h : Bool) (f : Seg → Option Rat) (t : List Seg)
-    (hc : ChromContig t) (hf : ∀ r ∈ t, IntLevel (f r))
-    (h1 : h = true → ∀ r ∈ t, NatOrMissing r.cn1 ∧ NatOrMissing r.cn2) :
-    squashByGroups h t (t.map f) = specSquash h f t := by
-  -- integer representatives of the levels
-  let g : Seg → Int := fun r => match f r with | some q => q.floor | none => 0
-  have hg : ∀ r ∈ t, f r = some ((g r : Int) : Rat) := by
+/-- a level that is present (not NaN) -/
+def Present (q : Option Rat) : Prop := ∃ v : Rat, q = some v
+
+/-- the rows `squash_by_groups` hands to `groupby`, each tagged with its group key (`_group`, `_g1`, `_g2`) -/
+def taggedRows (h : Bool) (t : List Seg) (levels : List (Option Rat)) : List ((Int × Int × Int) × Seg) :=
+  let names := (t.map (·.chrom)).eraseDups
+  let change := enumChanges levels
+  let keys : List Int := (change.zip t).map (fun p => p.1 + chromOrdinal names p.2.chrom)
+  let g1 := if h then enumChanges (t.map (fun r => some (r.cn1.getD (-1)))) else t.map (fun _ => 0)
+  let g2 := if h then enumChanges (t.map (fun r => some (r.cn2.getD (-1)))) else t.map (fun _ => 0)
+  (keys.zip (g1.zip g2)).zip t
+
+theorem squashByGroups_def (h : Bool) (t : List Seg) (lv : List (Option Rat)) :
+    squashByGroups h t lv = (groupByKey (·.1) (taggedRows h t lv)).filterMap (fun g => squashRegion (g.map (·.2))) := rfl
+
+theorem filterAmpdel_def (h : Bool) (t : List Seg) :
+    filterAmpdel h t = (groupByKey (·.1) (taggedRows h t (t.map levelAmpdel))).filterMap (fun g =>
+      match g with
+      | [] => none
+      | x :: _ => if levelAmpdel x.2 == some 0 then none else squashRegion (g.map (·.2))) := rfl
+
+/-- CORE: the groups pandas forms from the code's keys are exactly the maximal runs, in order -/
+theorem taggedGroups_eq_runs (h : Bool) (f : Seg → Option Rat) (t : List Seg)
+    (hc : ChromContig t) (hf : ∀ r ∈ t, Present (f r))
+    (h1 : h = true → ∀ r ∈ t, r.cn1 ≠ some (-1) ∧ r.cn2 ≠ some (-1)) :
+    (groupByKey (·.1) (taggedRows h t (t.map f))).map (fun g => g.map (·.2)) = splitRuns (fullLevel h f) t := by
+  let g : Seg → Rat := fun r => (f r).getD 0
+  have hg : ∀ r ∈ t, f r = some (g r) := by
     intro r hr
-    obtain ⟨z, hz⟩ := hf r hr
-    simp only [g, hz, Rat.floor_intCast]
-  have hmapf : t.map f = t.map (fun r => some ((g r : Int) : Rat)) := List.map_congr_left hg
+    obtain ⟨v, hv⟩ := hf r hr
+    simp only [g, hv, Option.getD_some]
+  have hmapf : t.map f = t.map (fun r => some (g r)) := List.map_congr_left hg
   have hC : Tracks (enumChanges (t.map f)) t (fun a b => f a = f b) := by
-    rw [hmapf, enumChanges_int]
-    refine (tracks_intChanges g t).congr ?_
+    rw [hmapf, enumChanges_rat]
+    refine (tracks_ratChanges g t).congr ?_
     intro a ha b hb
     rw [hg a ha, hg b hb]
     simp
   have hO := tracks_ord t hc
-  have hfm : ∀ L : List (List ((Int × Int × Int) × Seg)),
-      L.filterMap (fun g => squashRegion (g.map (·.2))) =
-        (L.map (fun g => g.map (·.2))).filterMap squashRegion := by
-    intro L; rw [List.filterMap_map]; rfl
-  unfold squashByGroups specSquash
+  unfold taggedRows
   simp only []
-  rw [hfm]
-  congr 1
   cases h with
   | false =>
     simp only [Bool.false_eq_true, if_false]
@@ -685,22 +679,16 @@ theorem squashByGroups_eq_runs (h : Bool) (f : Seg → Option Rat) (t : List Seg
     exact and_comm
   | true =>
     have h1' := h1 rfl
-    let c1 : Seg → Int := fun r => (r.cn1.getD (-1)).floor
-    let c2 : Seg → Int := fun r => (r.cn2.getD (-1)).floor
     have hA : Tracks (enumChanges (t.map (fun r => some (r.cn1.getD (-1))))) t (fun a b => a.cn1 = b.cn1) := by
-      have : t.map (fun r => some (r.cn1.getD (-1))) = t.map (fun r => some ((c1 r : Int) : Rat)) :=
-        List.map_congr_left (fun r hr => by rw [natOrMissing_repr _ (h1' r hr).1])
-      rw [this, enumChanges_int]
-      refine (tracks_intChanges c1 t).congr ?_
+      rw [enumChanges_rat (fun r => r.cn1.getD (-1)) t]
+      refine (tracks_ratChanges (fun r => r.cn1.getD (-1)) t).congr ?_
       intro a ha b hb
-      exact natOrMissing_inj _ _ (h1' a ha).1 (h1' b hb).1
+      exact getD_neg_one_inj _ _ (h1' a ha).1 (h1' b hb).1
     have hB : Tracks (enumChanges (t.map (fun r => some (r.cn2.getD (-1))))) t (fun a b => a.cn2 = b.cn2) := by
-      have : t.map (fun r => some (r.cn2.getD (-1))) = t.map (fun r => some ((c2 r : Int) : Rat)) :=
-        List.map_congr_left (fun r hr => by rw [natOrMissing_repr _ (h1' r hr).2])
-      rw [this, enumChanges_int]
-      refine (tracks_intChanges c2 t).congr ?_
+      rw [enumChanges_rat (fun r => r.cn2.getD (-1)) t]
+      refine (tracks_ratChanges (fun r => r.cn2.getD (-1)) t).congr ?_
       intro a ha b hb
-      exact natOrMissing_inj _ _ (h1' a ha).2 (h1' b hb).2
+      exact getD_neg_one_inj _ _ (h1' a ha).2 (h1' b hb).2
     simp only [if_true]
     obtain ⟨k1, k2, k3⟩ := keys_spec t _ _ _ _ _ _ _ _ hC hO hA hB
     refine groupByKey_zip_eq_splitRuns (fullLevel true f) t _ k1 ?_ k3
@@ -710,6 +698,73 @@ theorem squashByGroups_eq_runs (h : Bool) (f : Seg → Option Rat) (t : List Seg
     constructor
     · rintro ⟨⟨a, b⟩, c, d⟩; exact ⟨b, a, c, d⟩
     · rintro ⟨b, a, c, d⟩; exact ⟨⟨a, b⟩, c, d⟩
+
+/-- MAIN: on a chromosome-contiguous table whose levels are present (ANY rational values -- integrality is
+    not needed since `enumerate_changes` counts the changes), `squash_by_groups` (change count of the level +
+    chromosome ordinal, plus the allele-specific keys) yields exactly one squashed row per maximal run of
+    consecutive same-chromosome, same-level segments -/
+theorem squashByGroups_eq_runs_any (h : Bool) (f : Seg → Option Rat) (t : List Seg)
+    (hc : ChromContig t) (hf : ∀ r ∈ t, Present (f r))
+    (h1 : h = true → ∀ r ∈ t, r.cn1 ≠ some (-1) ∧ r.cn2 ≠ some (-1)) :
+    squashByGroups h t (t.map f) = specSquash h f t := by
+  have hfm : ∀ L : List (List ((Int × Int × Int) × Seg)),
+      L.filterMap (fun g => squashRegion (g.map (·.2))) =
+        (L.map (fun g => g.map (·.2))).filterMap squashRegion := by
+    intro L; rw [List.filterMap_map]; rfl
+  rw [squashByGroups_def, hfm, taggedGroups_eq_runs h f t hc hf h1]
+  rfl
+
+theorem filterMap_ampdelPick (runs : List (List Seg)) :
+    runs.filterMap ampdelPick = (runs.filter ampdelKeep).filterMap squashRegion := by
+  induction runs with
+  | nil => rfl
+  | cons g gs ih =>
+    cases g with
+    | nil =>
+      have e1 : ampdelPick [] = none := rfl
+      have e2 : ampdelKeep [] = false := rfl
+      rw [List.filterMap_cons_none e1, List.filter_cons_of_neg (by rw [e2]; decide), ih]
+    | cons x xs =>
+      cases hx : (levelAmpdel x == some 0) with
+      | true =>
+        have e1 : ampdelPick (x :: xs) = none := by simp only [ampdelPick, hx, if_true]
+        have e2 : ampdelKeep (x :: xs) = false := by simp only [ampdelKeep, bne, hx, Bool.not_true]
+        rw [List.filterMap_cons_none e1, List.filter_cons_of_neg (by rw [e2]; decide), ih]
+      | false =>
+        have e1 : ampdelPick (x :: xs) = squashRegion (x :: xs) := by
+          simp only [ampdelPick, hx, Bool.false_eq_true, if_false]
+        have e2 : ampdelKeep (x :: xs) = true := by simp only [ampdelKeep, bne, hx, Bool.not_false]
+        rw [List.filter_cons_of_pos e2]
+        simp only [List.filterMap_cons, e1, ih]
+
+/-- `ampdel` keeps exactly the non-neutral maximal runs, squashed -/
+theorem filterAmpdel_eq_runs (h : Bool) (t : List Seg) (hc : ChromContig t)
+    (h1 : h = true → ∀ r ∈ t, r.cn1 ≠ some (-1) ∧ r.cn2 ≠ some (-1)) :
+    filterAmpdel h t = specAmpdel h t := by
+  have hf : ∀ r ∈ t, Present (levelAmpdel r) := fun r _ => ⟨_, rfl⟩
+  have hfm : ∀ L : List (List ((Int × Int × Int) × Seg)),
+      L.filterMap (fun g => match g with
+        | [] => none
+        | x :: _ => if levelAmpdel x.2 == some 0 then none else squashRegion (g.map (·.2))) =
+        (L.map (fun g => g.map (·.2))).filterMap ampdelPick := by
+    intro L
+    rw [List.filterMap_map]
+    congr 1
+    funext g
+    cases g with
+    | nil => rfl
+    | cons x xs => rfl
+  rw [filterAmpdel_def, hfm, taggedGroups_eq_runs h levelAmpdel t hc hf h1, filterMap_ampdelPick]
+  rfl
+
+/-- the statement of the first round (integer levels, natural-or-missing allele-specific copy numbers) -/
+theorem squashByGroups_eq_runs (h : Bool) (f : Seg → Option Rat) (t : List Seg)
+    (hc : ChromContig t) (hf : ∀ r ∈ t, IntLevel (f r))
+    (h1 : h = true → ∀ r ∈ t, NatOrMissing r.cn1 ∧ NatOrMissing r.cn2) :
+    squashByGroups h t (t.map f) = specSquash h f t :=
+  squashByGroups_eq_runs_any h f t hc
+    (fun r hr => by obtain ⟨z, hz⟩ := hf r hr; exact ⟨_, hz⟩)
+    (fun hh r hr => ⟨natOrMissing_ne _ (h1 hh r hr).1, natOrMissing_ne _ (h1 hh r hr).2⟩)
 
 theorem intLevel_ite3 (a b : Prop) [Decidable a] [Decidable b] :
     IntLevel (some (if a then (1 : Rat) else if b then -1 else 0)) ∧
@@ -729,7 +784,11 @@ theorem intLevel_ite3 (a b : Prop) [Decidable a] [Decidable b] :
 /-- the `ampdel` levels are −1 / 0 / 1 -/
 theorem levelAmpdel_int (r : Seg) : IntLevel (levelAmpdel r) := (intLevel_ite3 _ _).1
 theorem levelCi_int (r : Seg) : IntLevel (levelCi r) := (intLevel_ite3 _ _).2
-theorem levelSem_int (r : Seg) : IntLevel (levelSem r) := (intLevel_ite3 _ _).2
+theorem levelSem_int (r : Seg) : IntLevel (levelSem r) := by
+  unfold levelSem
+  cases r.sem with
+  | none => exact ⟨0, rfl⟩
+  | some s => exact (intLevel_ite3 _ _).2
 
 set_option linter.unusedSimpArgs false in
 /-- a run kept by `ampdel` consists only of deleted (cn = 0) or only of amplified (cn ≥ 5) segments -/
